@@ -393,3 +393,7 @@ Definition rle_deltas (l : list (option Z)) : list (Z * Z) := rle_deltas_from 0 
 (** the same observable with Coq string literals (only used on printable-ASCII alphabets: faster to print) *)
 Definition out_uri_s (r : option (str * str)) : option (string * string) :=
   match r with None => None | Some (f, g) => Some (string_of_list_ascii f, string_of_list_ascii g) end.
+
+(** the same stream for a in [a0, a0+na): lets the harness cut a long stream into pieces *)
+Definition numerals_range (a0 na : Z) (k : nat) : list str :=
+  flat_map (fun a => map (fun f => dec a ++ c_dot :: f) (strings_of_len digits10 k)) (zrange a0 (Z.to_nat na)).
